@@ -2,3 +2,6 @@ package model
 
 // B lives in a package whose last segment clashes with cla/model.
 type B struct{ Y int }
+
+// Item has the same package name AND type name as the Item of the other model package.
+type Item struct{ N int }
